@@ -1627,6 +1627,12 @@ async fn apply_assignment(
             // That's it!
             return Ok(());
         }
+
+        // The variable lives in another scope, so the assignment would put a new variable
+        // in front of it (e.g., `r=2 cmd`). A readonly variable can't be shadowed that way.
+        if existing_value.is_readonly() {
+            return Err(error::ErrorKind::ReadonlyVariable.into());
+        }
     }
 
     // If we fell down here, then we need to add it.
